@@ -1,7 +1,7 @@
 (* Composition: a pipeline of Conc/Pipeline.v (stages with nested operand pipelines) evaluated with its map/accept
    stages running through the MapAuto/FilterAuto protocol under ANY assignment of schedule inputs has the sequential
    denotation. *)
-From P2 Require Import Base.Prelude Conc.ParMap Conc.Pipeline Conc.ConcProofs Conc.MapAutoProofs.
+From P2 Require Import Base.Prelude Conc.ParMap Conc.Pipeline Conc.ConcProofs Conc.MapAutoProofs Conc.MergeChan Conc.MergeChanProofs Conc.MergeLift.
 From Coq Require Import Lia.
 
 Lemma outcome_map_slog : forall p l i,
@@ -56,6 +56,15 @@ Proof.
   rewrite <- (seq_filter_slog (fun x => to_res (accept_fn p x)) (map (@ROk Z) l) 0). apply outcome_seq_filter.
 Qed.
 
+(* merge through two producer goroutines and the stop flag, any schedule *)
+Lemma par_merge_with_seq : forall pp p l o,
+  par_merge_with pp p l o = merge_fuel (S (length l + length o)) (merge_less p) l o.
+Proof.
+  intros pp p l o. unfold par_merge_with.
+  rewrite (merge_fun_eq_seq (fun x y => to_res (merge_less p x y)) (fun _ => false) (map (@ROk Z) l) (map (@ROk Z) o) (pp_msched pp)).
+  apply (merge_seq_is_merge_fuel (merge_less p)).
+Qed.
+
 Definition assignment_ok (asg : assignment) : Prop := forall k p l, 1 <= pp_nw (asg k p l).
 
 Lemma stage_par_with_seq : forall asg, assignment_ok asg ->
@@ -64,6 +73,8 @@ Proof.
   intros asg Hok k p o l. destruct k; try reflexivity; cbn [stage_par_with stage_seq].
   - apply par_map_with_seq, Hok.
   - apply par_accept_with_seq, Hok.
+  - destruct o as [o|]; [|reflexivity]. cbn [bind]. apply par_merge_with_seq.
+  - apply par_merge_with_seq.
   - destruct (esc_items e p o l); [|reflexivity]. cbn [bind]. apply par_fn_with_seq, Hok.
   - apply par_fn_with_seq, Hok.
 Qed.
